@@ -44,12 +44,12 @@ def run(tier):
                 "PolicyIteration runs (full runs with and without a supplied initial policy, and single iterations "
                 "from injected arbitrary policies/values) judged by PITrace.tla step by step. distinct = distinct "
                 "(mdp, config, injected policy); non-trivial = at least one evaluation step")
-    res = C.run_tlc("PIModel", "PIModel.cfg" if tier == "quick" else "PIModelThorough.cfg",
-                    extra=["-seed", str(C.seed() + 1)], coverage=True)
-    C.tlc_must_be_clean(res, "PIModel")
-    rep.add_tlc("PIModel (all starting policies on seeded gadgets)", res)
-    if res.invariant_violated:
-        rep.violation("spec:PIModel " + ",".join(res.violated), {"tlc": res.out[-3000:]})
+    for cfg in ("PIModel.cfg" if tier == "quick" else "PIModelThorough.cfg", "PIModelDet.cfg"):
+        res = C.run_tlc("PIModel", cfg, extra=["-seed", str(C.seed() + 1)], coverage=True)
+        C.tlc_must_be_clean(res, "PIModel " + cfg)
+        rep.add_tlc(f"PIModel ({cfg}: all starting policies on seeded gadgets)", res)
+        if res.invariant_violated:
+            rep.violation("spec:PIModel " + ",".join(res.violated), {"tlc": res.out[-3000:]})
     jobs = jobs_for(tier, rng)
     j2, traces = solverlib.run_jobs(jobs)
     solverlib.judge(rep, j2, traces, module="PITrace", label="C05")
